@@ -1247,28 +1247,27 @@ func (m *Model) numberMethod(a *Node, item any, next emitFn, isDecimal bool) *me
 			return hardErr("NUMERIC scale %d must be between -1000 and 1000", s)
 		}
 	}
-	// exact decimal rounding of the double's exact value, half away from zero
+	// exact decimal rounding, half away from zero: of the double's exact value for a float64 / int64
+	// item, of the decimal text for a string or json.Number item (whose nearest double f is)
 	exact := new(big.Rat).SetFloat64(f)
+	if f != 0 {
+		switch v := item.(type) {
+		case string:
+			if r, ok := new(big.Rat).SetString(v); ok {
+				exact = r
+			}
+		case json.Number:
+			if r, ok := new(big.Rat).SetString(string(v)); ok {
+				exact = r
+			}
+		}
+	}
 	pow := new(big.Rat).SetInt(new(big.Int).Exp(big.NewInt(10), big.NewInt(absInt(s)), nil))
 	scaled := new(big.Rat)
 	if s >= 0 {
 		scaled.Mul(exact, pow)
 	} else {
 		scaled.Quo(exact, pow)
-	}
-	// a tie (or a value within float noise of one) is left open: the implementation rounds in binary
-	frac := new(big.Rat).Sub(scaled, new(big.Rat).SetInt(new(big.Int).Quo(scaled.Num(), scaled.Denom())))
-	frac.Abs(frac)
-	d := new(big.Rat).Sub(frac, big.NewRat(1, 2))
-	d.Abs(d)
-	// the implementation rounds num*10^s in binary floating point: its resolution is one ulp of
-	// the scaled value, so a tie is "near" when it is within 2^-49 of the scaled magnitude
-	noise := new(big.Rat).Mul(new(big.Rat).Abs(scaled), new(big.Rat).SetFrac(big.NewInt(1), new(big.Int).Lsh(big.NewInt(1), 49)))
-	if noise.Cmp(big.NewRat(1, 1000000)) < 0 {
-		noise = big.NewRat(1, 1000000)
-	}
-	if d.Cmp(noise) < 0 && s < 300 && s > -300 {
-		return openErr("decimal rounding within float noise of a tie")
 	}
 	rounded := roundHalfAway(scaled)
 	if s >= 0 {
@@ -1287,6 +1286,9 @@ func (m *Model) numberMethod(a *Node, item any, next emitFn, isDecimal bool) *me
 		return suppErr("value does not fit numeric(%d,%d)", p, s)
 	}
 	rf, _ := rounded.Float64()
+	if math.IsInf(rf, 0) {
+		return suppErr("rounded value beyond the range of float64")
+	}
 	if rf == 0 && f < 0 {
 		// a negative value rounded to zero: the sign of the zero is not fixed by the
 		// rules (the implementation keeps IEEE -0); .string() of it is left open
